@@ -893,7 +893,61 @@ pub fn gen_family(rng: &mut Rng, fam: Family, lim: &GenLimits) -> GenModel {
                     }
                 })
                 .collect();
-            let vars = mk_vars(var_names(rng, n), doms);
+            let mut vars = mk_vars(var_names(rng, n), doms);
+            // second shape: two rows with the same left-hand side over the first two
+            // variables and right-hand sides that exclude each other, and the objective on a
+            // third column that occurs in no row and is unbounded in the improving
+            // direction — the ray an interior-point iterate runs away along lies entirely
+            // outside the contradicting rows
+            if n >= 3 && rng.chance(1, 2) {
+                if rng.chance(2, 3) {
+                    for v in vars.iter_mut() {
+                        v.dom = Dom::Real { lo: None, hi: None };
+                    }
+                }
+                let mut a = vec![0.0; n];
+                a[0] = *rng.pick(&[1.0, 1.0, 2.0, -1.0]);
+                a[1] = *rng.pick(&[1.0, -1.0, 1.0, 3.0]);
+                let b = dyadic(rng, -3, 3, lim);
+                let d = *rng.pick(&[1.0, 2.0, 0.5, 4.0]);
+                let (c0, c1, r0, r1) = match rng.below(4) {
+                    0 | 3 => (Cmp::Eq, Cmp::Eq, b, b + d),
+                    1 => (Cmp::Le, Cmp::Ge, b, b + d),
+                    _ => (Cmp::Eq, Cmp::Ge, b, b + d),
+                };
+                let rows = vec![
+                    Row {
+                        name: String::new(),
+                        coefs: a.clone(),
+                        cmp: c0,
+                        rhs: r0,
+                    },
+                    Row {
+                        name: String::new(),
+                        coefs: a,
+                        cmp: c1,
+                        rhs: r1,
+                    },
+                ];
+                let mut obj = vec![0.0; n];
+                obj[2] = *rng.pick(&[1.0, 2.0, 0.5, 5.0]);
+                // a non-negative column is unbounded upwards only
+                let sense = if vars[2].dom.is_free() && rng.chance(1, 2) {
+                    Sense::Min
+                } else {
+                    Sense::Max
+                };
+                let mut m = GenModel {
+                    obj,
+                    vars,
+                    rows,
+                    offset: 0.0,
+                    sense,
+                    decor: Vec::new(),
+                };
+                post_mutate(rng, &mut m, lim);
+                return m;
+            }
             let mut a = vec![0.0; n];
             a[0] = 1.0;
             a[1] = -1.0;
